@@ -261,7 +261,10 @@ func init() {
 			"L5c in Interp.Cmd the command character is dropped from the very string in which it was found (found F49: blanks before the colon). " +
 			"Not decided: the element shifting arithmetic of removeCmd (needs reasoning about slice lengths, not shape), the contents of the ambiguity list.",
 		Assumptions: []string{"sort.Slice, strings.HasPrefix as documented"},
-		Rules:       []func(*Ctx){ruleCmdLookup, func(c *Ctx) { ruleCommandCharRemoval(c, "L5c-command-char-removal") }},
+		Rules: []func(*Ctx){ruleCmdLookup, func(c *Ctx) {
+			ruleCommandCharRemoval(c, "L5c-command-char-removal")
+			ruleDebugLookupConjunction(c, "L6d-debug-lookup-conjunction")
+		}},
 		Mutants: []Mutant{
 			{Name: "command-char-removed-from-untrimmed-input", File: "fast/cmd.go", Old: "\t\t\ti := strings.IndexByte(src, g.ReplCmdChar)\n\t\t\tsrc = src[:i] + \" \" + src[i+1:]", New: "\t\t\tsrc = \" \" + src[1:]"},
 			{Name: "exact-flag-discarded", File: "fast/cmd.go", Old: "\tlo, found := binarySearch(vec, prefix)\n\tif found {\n\t\t// exact match: never ambiguous, even if other names extend it\n\t\treturn lo, nil\n\t}\n", New: "\tlo, _ := binarySearch(vec, prefix)\n", Canary: true},
@@ -436,6 +439,7 @@ func init() {
 		Assumptions: []string{"Go operator semantics on basic types", "reflect container operations equal the corresponding builtins"},
 		Rules: []func(*Ctx){ruleContractMethods, func(c *Ctx) {
 			ruleCtiArity(c, "G6-container-arity")
+			ruleCtiPrimitiveName(c, "G7-cti-primitive-name")
 			ruleUniformity(c, "xreflect", []string{"cti_basic_method.go", "cti_method.go"}, "U-uniform")
 			c.Floor("G2-method-operator", 130)
 			c.Floor("G4-method-types", 130)
@@ -600,7 +604,7 @@ func init() {
 			{Name: "go-args-evaluated-in-goroutine", File: "fast/statement.go", Old: "\t\t\tfunv.Call(argv)\n\t\t}()", New: "\t\t\tfunv.Call(append(argv[:0:0], exprfun(env2)))\n\t\t}()", Canary: true},
 			{Name: "go-argument-aliases-variable", File: "fast/statement.go", Old: "\t\t\tv := argfun(env2)\n\t\t\tif v.CanSet() {\n\t\t\t\tv = v.Convert(v.Type()) // make a copy\n\t\t\t}\n\t\t\targv[i] = v\n", New: "\t\t\targv[i] = argfun(env2)\n"},
 			{Name: "gls-delete-unlocked", File: "fast/compile.go", Old: "\tg.lock.Lock()\n\tdelete(g.gls, goid)\n\tg.lock.Unlock()\n", New: "\tdelete(g.gls, goid)\n", Canary: true},
-			{Name: "send-int16-uses-other-channel-type", File: "fast/channel.go", Old: "(chan<- int16)", New: "(chan<- int32)", Nth: 1},
+			{Name: "send-int16-does-not-advance", File: "fast/channel.go", Old: "\t\t\t\t\t\tchannel := channelfun(env).Interface().(chan<- int16)\n\t\t\t\t\t\tchannel <- value\n\t\t\t\t\t\tenv.IP++\n", New: "\t\t\t\t\t\tchannel := channelfun(env).Interface().(chan<- int16)\n\t\t\t\t\t\tchannel <- value\n", Nth: 1},
 		},
 	})
 }
@@ -792,6 +796,8 @@ func init() {
 		Assumptions: []string{"Go operator semantics"},
 		Rules: []func(*Ctx){func(c *Ctx) {
 			ruleTokenArmOperators(c, "classic", nil, "A5-classic-operator")
+			ruleArmTypeAgreement(c, "A1c-arm-type-agreement", "classic", []string{"unaryexpr.go", "binaryexpr.go"})
+			ruleRangeLenSnapshot(c, "G3c-range-len-snapshot")
 			ruleMacroCodewalk(c, "K1-macro-codewalk")
 			ruleMonotoneFlag(c, "K3-flag-accumulates", "fast.Comp.macroExpandCodewalk", "classic.Env.macroExpandAstCodewalk", "fast.Comp.MacroExpand1", "classic.Env.macroExpandAstOnce")
 		}},
